@@ -74,10 +74,11 @@ P("C07", [("V2", None)],
   "Not reached: clause generation for associated types (program_clauses.rs), relate_alias_ty, the solver search itself. Assumed: calculate_inputs abstract, Solution::combine's contract (V1).",
   "contract-based deductive verification: Verus on mechanically extracted function text")
 
-P("C13", [("V1", None), ("V2", None), ("K1", r"^k3_l_priority_meet")],
+P("C13", [("V1", None), ("V2", None), ("V18", None), ("K1", r"^k3_l_priority_meet")],
   "proof",
   "Partial (function-level links): commutativity of Solution::combine (Verus lemma over its verified functional contract), argument-order independence of with_priorities (Verus), "
-  "and commutativity/associativity/idempotence of the ClausePriority meet (Kani, full domain). Unbounded / complete.",
+  "commutativity/associativity/idempotence of the ClausePriority meet (Kani, full domain), and the tabling step solve_goal recording every dependency on a provisional answer "
+  "whatever the order in which sibling goals are evaluated (Verus, V18) — without it the recursive solver's cached answers depend on impl order. Unbounded / complete.",
   "Not reached: iteration order of impls, the environment hash set, arrival order of answers in merge_into_guidance. Assumed: two trivially-true solutions of one query are equal.",
   "contract-based deductive verification: Verus lemmas over verified contracts + Kani full-domain harness")
 
@@ -124,12 +125,13 @@ P("C29", [("V9", None), ("K1", r"^k3_"), ("K7", None)],
   "Not reached: relate_ty_ty's arms themselves (Ref/Raw/Adt/Tuple/FnDef/Function), relate_lifetime_lifetime (reference patterns), 'structures agree', the two-unknowns flounder rule.",
   "contract-based deductive verification: Verus on extracted text + Kani function contracts / harness contracts")
 
-P("C14", [("K1", r"^k1_(c_ui|l_universe)"), ("V9", None)],
+P("C14", [("K1", r"^k1_(c_ui|l_universe)"), ("V9", None), ("V8", None)],
   "proof",
   "Partial (leaf decisions only): Kani (loop-free, full domain) and Verus both prove that can_see is the counter order (total preorder, `next` strictly above); Verus proves on the verbatim "
-  "text that an unknown lifetime is bound to a value only if the relation is invariant and the unknown's universe can see the value's universe, constraints being emitted otherwise. "
-  "Unbounded / complete for these functions.",
-  "Not reached: soundness and most-generality for whole terms (Zip / TypeFoldable induction, ena's union-find), the occurs check folder for types (reference patterns / generic folder), "
+  "text that an unknown lifetime is bound to a value only if the relation is invariant and the unknown's universe can see the value's universe, constraints being emitted otherwise; and the leaf decisions of the occurs check: a placeholder is accepted iff the unknown's universe can see it, an invisible placeholder "
+  "lifetime is replaced by a fresh variable required to equal it, an unbound type variable is rejected exactly when it is in the class of the variable being bound (the occurs check proper), "
+  "and otherwise has its universe lowered to the binder's. Unbounded / complete for these functions.",
+  "Not reached: soundness and most-generality for whole terms (Zip / TypeFoldable induction, ena's union-find), the occurs check on bound variables' values (generic fold), "
   "generalize_ty, InferenceValue::unify_values (reference patterns in Verus; Clone glue blow-up in Kani).",
   "contract-based deductive verification: Kani full-domain function contracts + Verus on extracted text")
 
@@ -143,20 +145,21 @@ P("C11", [("K12", r"_q"), ("V5", None), ("V4", None), ("V19", None)],
   "The SLG side of the second sentence (tables persisting across interrupted solves) is a history property and is not reached (see C10).",
   "contract-based verification: Kani harness contract over enumerated streams + Verus on extracted text")
 
-P("C01", [("K12", None), ("V1", None), ("V3", None)],
+P("C01", [("K12", None), ("V1", None), ("V3", None), ("V18", None)],
   "model_checking",
   "Partial (aggregation contract only): Kani runs the real make_solution on every answer stream up to the bound: Unique iff exactly one unconditional answer, 'no solution' iff the "
-  "stream is empty, nothing definite after a flounder or an interruption, the Unique payload is the stream's answer unchanged; Verus proves combine never manufactures a Unique and "
-  "that the recursive fixed point starts from bottom/top as the semantics requires. BOUNDED (stream length <= 2/3); Verus parts unbounded.",
+  "stream is empty, nothing definite after a flounder or an interruption, the Unique payload is the stream's answer unchanged; Verus proves combine never manufactures a Unique, "
+  "that the recursive fixed point starts from bottom/top as the semantics requires, and that the tabling step solve_goal records every dependency on a provisional answer (V18). BOUNDED (stream length <= 2/3); Verus parts unbounded.",
   "Assumed: the answer stream itself is sound and complete, i.e. SLG resolution and the recursive search against the program's logical meaning — the bulk of C01 — are NOT verified "
   "(no function of chalk has the logical meaning as an argument or view; logic.rs is out of reach of both tools).",
   "contract-based verification: Kani harness contract over enumerated streams + Verus on extracted text")
 
-P("C28", [("V5", None), ("K12", r"_ans"), ("V1", None), ("K8", r"laws")],
+P("C28", [("V5", None), ("K12", r"_ans"), ("V1", None), ("K8", r"laws"), ("V8", None)],
   "model_checking",
   "Partial: Verus proves the SLG stream's CompleteAnswer copies binders, substitution and constraints of the table's answer unchanged; Kani shows make_solution's Unique payload is that "
   "answer unchanged; Verus shows into_guidance / definite_subst / constrained_subst keep the binders with the substitution; Kani shows map_universe_from_canonical sends every canonical "
-  "universe of the query back to one of the query's own universes. BOUNDED where Kani is used.",
+  "universe of the query back to one of the query's own universes; Verus (V8) shows every unknown captured in the value of a variable is moved into a universe that variable can name "
+  "(so a solution mentions no universe the query cannot name). BOUNDED where Kani is used.",
   "Not reached: arity/kind agreement of the substitution with the query's binders (established inside resolution and canonicalisation), Fulfill::solve.",
   "contract-based verification: Verus on extracted text + Kani harness contracts")
 
